@@ -397,6 +397,15 @@ func (s *Store) EnableDB(ctx context.Context, path string) error {
 		return fmt.Errorf("open database: %w", err)
 	}
 
+	// The database may have been unregistered while it was being opened, in
+	// which case the store no longer manages it and must not leave it open.
+	if s.FindDB(path) != db {
+		if err := db.Close(ctx); err != nil {
+			db.Logger.Error("close unregistered db", "path", path, "error", err)
+		}
+		return fmt.Errorf("database not found: %s", path)
+	}
+
 	return nil
 }
 
